@@ -91,6 +91,54 @@ class StrainTask(FragmentTask):
                    zand(veq(ctx, call.get("ncells"), 3), call.get("kept_fields") is inp["frame"]["self"].attrs["kept_fields"]), "P")
 
 
+class StrainTaskList(FragmentTask):
+    """The statements of Colander.strain that build the task list of ONE level (from the empty list to the end of the loop over
+    the level's binary files; same skeleton): one task per distinct binary file, each naming ITS file to read and ITS file to
+    write, and the id lists of box_index_map in the same order - tasks are separate objects."""
+    prop = "C05"
+    reach = "S"
+    qual = CO + "Colander.strain"
+    first = staticmethod(FragmentTask.assigns("mp_calls"))
+    which = None
+
+    @staticmethod
+    def last(s):
+        return isinstance(s, ast.For) and "np.unique(level_files)" in ast.unparse(s.iter)
+
+    def __init__(self):
+        self.name = "strain.task-list-of-a-level"
+
+    def setup(self, ex):
+        inp = StrainTask.setup(self, ex)
+        for k in ("bfile_r", "mp_calls", "box_index_map"):
+            inp["frame"].pop(k, None)
+        return inp
+
+    def post(self, ex, inp, out):
+        ctx = ex.ctx
+        ctx.oblige("raises-nothing", out.kind == "ret", "P", note=str(out.exc) if out.kind != "ret" else "")
+        if out.kind != "ret":
+            return
+        calls, bmap = out.value.get("mp_calls"), out.value.get("box_index_map")
+        files = sorted(set(FILES))
+        ok = isinstance(calls, list) and len(calls) == len(files) and all(isinstance(c, dict) for c in calls) and \
+            isinstance(bmap, list) and len(bmap) == len(files)
+        ctx.structure("post.one-task-and-one-id-list-per-binary-file-of-the-level", ok)
+        from pyvc.ops import compare
+        from pyvc.libos import os_getcwd, join2
+        cwd = os_getcwd(ex, [], {})
+        for k, f in enumerate(files):
+            ctx.oblige(f"post.task-{k}-reads-its-own-file", compare(ex, "Eq", calls[k].get("bfile_r"), join2(ex, cwd, f)), "P",
+                       note=str(calls[k].get("bfile_r")))
+            want_w = join2(ex, join2(ex, join2(ex, cwd, "out"), "Level_0"), f.split("/")[-1])
+            ctx.oblige(f"post.task-{k}-writes-its-own-file", compare(ex, "Eq", calls[k].get("bfile_w"), want_w), "P",
+                       note=str(calls[k].get("bfile_w")))
+            B = [i for i in range(3) if FILES[i] == f]
+            ids = ex.as_iterable(bmap[k])
+            ctx.oblige(f"post.id-list-{k}-holds-the-boxes-of-file-{k}", len(ids) == len(B) and
+                       zand(*[zor(*[to_z3(b) == c for c in B]) for b in ids]), "P")
+
+
 class StrainScatter(FragmentTask):
     """The loop storing the offsets the workers returned: the t-th offset of the task of file f goes to box ids_f[t]."""
     prop = "C05"
@@ -128,7 +176,7 @@ class StrainScatter(FragmentTask):
 
 
 def parent_tasks(tier):
-    return [StrainTask(FILES[0]), StrainTask(FILES[1]), StrainScatter()]
+    return [StrainTask(FILES[0]), StrainTask(FILES[1]), StrainTaskList(), StrainScatter()]
 
 
 def parent_canaries():
